@@ -894,7 +894,7 @@ def run_impl(case, upto=None, soft_from=None, hang=None, soft_s=3.0):
     # twin_of: id(function / generator object made by a real `!py` evaluation) -> the object the plain-Python
     # reading made for the same expression at the same moment; keep: the real objects (ids stay unique)
     state = {'context': context, 'rehydrated': None, 'over': {}, 'twin_of': {}, 'keep': [], 'tainted': False,
-             'deferred': False, 'gens_made': False}
+             'deferred': False, 'gens_made': False, 'saves': []}
 
     def unshadowed():
         """Code ran for real that the plain-Python reading did not run alongside: a generator object it may have
@@ -903,6 +903,10 @@ def run_impl(case, upto=None, soft_from=None, hang=None, soft_s=3.0):
             state['tainted'] = True
             notes.append('oracle:off(a-generator-object-may-have-been-pulled-by-code-the-oracle-did-not-shadow)')
 
+
+    def rehydrated_since(blk):
+        """The Context object the `save` of block `blk` closes over is no longer the one the session works on."""
+        return blk in state.get('stale_saves', ())
 
     def lookup(k):
         over = state['over']
@@ -1135,11 +1139,25 @@ def run_impl(case, upto=None, soft_from=None, hang=None, soft_s=3.0):
             if 'genobj' in block_facts(op['exec']):
                 state['gens_made'] = True
             unshadowed()
+            # the `save` function object `get_save(context, namespace)` makes for this block is kept by the
+            # harness (instrumentation from outside): a later `savecall` op calls it when the block is long over
+            box = []
+            orig_get_save = getattr(pystep, 'get_save', None)
+            if callable(orig_get_save):
+                def spy(*a, **kw):
+                    f = orig_get_save(*a, **kw)
+                    box.append(f)
+                    return f
+                pystep.get_save = spy
             try:
                 pystep.run_step(context)
                 res = ('ok', None)
             except Exception as e:     # noqa
                 res = ('err', err_name(e))
+            finally:
+                if callable(orig_get_save):
+                    pystep.get_save = orig_get_save
+            state['saves'].append(box[0] if box and callable(box[0]) else None)
             after_map = dict(dict.items(context))
             named = saved_names(op['exec'])
             bad = []
@@ -1171,6 +1189,44 @@ def run_impl(case, upto=None, soft_from=None, hang=None, soft_s=3.0):
                         {'impl': got, 'plain': oracle}))
             if any(isinstance(v, (types.FunctionType, types.GeneratorType)) for v in after_map.values()):
                 state['deferred'] = True
+        elif 'savecall' in op:
+            # M10: the `save` function of an EARLIER py block, called now (the block kept it, or a helper whose
+            # body calls it): this CALL may add / rebind exactly the keys it is given
+            blk, names, kws = op['savecall']
+            fn = state['saves'][blk] if blk < len(state['saves']) else None
+            if fn is None:
+                notes.append('savecall:no-save-function-captured(get_save hook gone)')
+                res = ('err', 'NoSaveFunction')
+            else:
+                kwargs = {k: w.val(v) for k, v in kws}
+                unshadowed()
+                try:
+                    fn(*names, **kwargs)
+                    res = ('ok', None)
+                except Exception as e:     # noqa: the call's own exception is an observation
+                    res = ('err', err_name(e))
+                after_map = dict(dict.items(context))
+                given = set(names) | set(kwargs)
+                bad = []
+                for k in before_map:
+                    if k not in after_map:
+                        bad.append(f'key {k!r} removed')
+                    elif after_map[k] is not before_map[k] and k not in given:
+                        bad.append(f'key {k!r} rebound')
+                for k in after_map:
+                    if k not in before_map and k not in given:
+                        bad.append(f'key {k!r} (re-)added')
+                for k, v in kwargs.items():
+                    if res[0] == 'ok' and not rehydrated_since(blk) and after_map.get(k, w) is not v:
+                        bad.append(f'keyword {k!r} not bound to the value given')
+                if bad:
+                    findings.append((
+                        f'save({", ".join([repr(n) for n in names] + [k + "=…" for k in kwargs])}) called after its py '
+                        f'block had ended changed context keys it was not given: {", ".join(bad[:6])}',
+                        {'site': 'py.get_save', 'monitor': 'save-call-writes-only-its-arguments',
+                         'effect': 'added' if any('added' in b for b in bad) else 'rebound-or-removed'},
+                        {'before': list(before_map), 'after': list(after_map), 'given': sorted(given),
+                         'outcome': res[1] if res[0] == 'err' else 'ok'}))
         elif 'pyimport' in op:
             w.src_text[src] = 'pyImport'
             dict.__setitem__(context, 'pyImport', src)
@@ -1234,6 +1290,7 @@ def run_impl(case, upto=None, soft_from=None, hang=None, soft_s=3.0):
                         {'before': want, 'after': got, 'type': type(new).__name__}))
                 context = state['context'] = new
                 rehydrated = state['rehydrated'] = used
+                state['stale_saves'] = set(range(len(state['saves'])))
                 # objects made by earlier evaluations go on reading the Context object left behind: the twins
                 # (which read the object the session works on) no longer stand for them
                 state['twin_of'] = {}
@@ -1365,6 +1422,138 @@ def run_impl_only(case):
                 {'name': name, 'outcome': obs}))
             break
     return obs, findings
+
+
+# --------------------------------------------------------------------------
+# IMPLEMENTATION-ONLY stream 2: a py block keeps a HELPER FUNCTION whose body calls save(...); the pipeline
+# moves on (keys the block saved are cleared / rebound, contextclearall), later `!py helper(x)` expressions
+# (or a kept reference) call the helper. Monitor from the property text, per CALL: the call adds / rebinds
+# exactly the keys the helper passes to save(...); nothing is removed; a key removed or rebound since stays so.
+# --------------------------------------------------------------------------
+
+HELPER_VARS = ['acc', 'tmp', 'n', 'cfg']
+
+
+def save_helper_case(rng):
+    first = rng.sample(HELPER_VARS, rng.choice([1, 2, 3, 4]))
+    hnames = rng.sample(HELPER_VARS, rng.choice([0, 0, 1, 2]))
+    hkws = rng.sample(['last', 'count', 'n', 'tmp'], rng.choice([0, 1, 1, 2]))
+    hkws = [k for k in hkws if k not in hnames]
+    if not hnames and not hkws:
+        hkws = ['count']
+    kwsrc = {'last': 'v', 'count': 'len(acc)', 'n': 'len(acc) + 1', 'tmp': 'v'}
+    args = [repr(n) for n in hnames] + [f'{k}={kwsrc[k]}' for k in hkws]
+    block = ('acc = []\ntmp = b\nn = 0\ncfg = [a]\n\n'
+             'def h(v):\n    acc.append(v)\n    save(' + ', '.join(args) + ')\n    return v\n\n'
+             'save(' + ', '.join(repr(x) for x in ['h'] + first) + ')\n')
+    steps = []
+    live = ['h'] + first + ['a', 'b', 'len', 'L']
+    for _ in range(rng.choice([2, 3, 4, 5, 6])):
+        x = rng.random()
+        if x < 0.3:
+            steps.append(['del', rng.sample(live, min(len(live), rng.choice([1, 1, 2])))])
+        elif x < 0.5:
+            steps.append(['set', rng.sample(first + ['h', 'a', 'count', 'last'], rng.choice([1, 2]))])
+        elif x < 0.56:
+            steps.append(['clearall'])
+        else:
+            steps.append(['call', rng.choice(['py', 'py', 'ref'])])
+    steps.append(['call', 'py'])
+    return {'kind': 'impl-only-save', 'method': 'helper-save', 'block': block, 'given': hnames + hkws, 'steps': steps,
+            'ctx': [['a', tok('ctx', 'a')], ['b', tok('ctx', 'b')], ['len', tok('ctx', 'len')], ['L', ref(0)]],
+            'heap': [{'l': [tok('ctx', 'L.0')]}]}
+
+
+SAVE_HELPER_DIRECTED = [
+    # the pipeline of the property text: set-up block, contextclear of a saved key, set of another, helper called
+    (['acc', 'tmp'], [['del', ['tmp']], ['set', ['acc']], ['call', 'py'], ['call', 'py']], "save(count=len(acc))"),
+    (['acc', 'tmp', 'n'], [['call', 'py'], ['del', ['tmp', 'n']], ['call', 'ref'], ['set', ['h']], ['call', 'ref']],
+     "save('n', last=v)"),
+    (['cfg'], [['clearall'], ['call', 'ref'], ['call', 'ref']], "save(last=v)"),
+    (['acc', 'n', 'cfg'], [['set', ['n', 'cfg']], ['call', 'py'], ['del', ['acc']], ['call', 'py']], "save('tmp')"),
+]
+
+
+def save_helper_directed():
+    out = []
+    for first, steps, call in SAVE_HELPER_DIRECTED:
+        block = ('acc = []\ntmp = b\nn = 0\ncfg = [a]\n\n'
+                 'def h(v):\n    acc.append(v)\n    ' + call + '\n    return v\n\n'
+                 'save(' + ', '.join(repr(x) for x in ['h'] + first) + ')\n')
+        given = [x for x in ('n', 'tmp', 'last', 'count') if (repr(x) in call or x + '=' in call)]
+        out.append({'kind': 'impl-only-save', 'method': 'helper-save', 'block': block, 'given': given, 'steps': steps,
+                    'ctx': [['a', tok('ctx', 'a')], ['b', tok('ctx', 'b')], ['len', tok('ctx', 'len')], ['L', ref(0)]],
+                    'heap': [{'l': [tok('ctx', 'L.0')]}]})
+    return out
+
+
+def run_save_helper(case):
+    """Returns (observation, findings)."""
+    from pypyr.context import Context
+    from pypyr.dsl import PyString
+    import pypyr.steps.py as pystep
+    import pypyr.steps.contextclearall as clearallstep
+    w = World(case)
+    context = Context(w.ctx)
+    context['py'] = case['block']
+    findings = []
+    sig = {'site': 'py.get_save', 'route': 'helper-function-calls-save-later',
+           'monitor': 'save-call-writes-only-its-arguments'}
+    try:
+        pystep.run_step(context)
+    except Exception as e:     # noqa
+        return {'err': err_name(e)}, findings
+    del context['py']
+    h = dict.get(context, 'h')
+    if not callable(h):
+        return {'err': 'helper-not-saved'}, findings
+    given = set(case['given'])
+    calls = 0
+    serial = 0
+    for st in case['steps']:
+        if st[0] == 'del':
+            for k in st[1]:
+                if k in context:
+                    del context[k]
+        elif st[0] == 'set':
+            for k in st[1]:
+                serial += 1
+                context[k] = marker('ctx', f'{k}#{serial}')
+        elif st[0] == 'clearall':
+            clearallstep.run_step(context)
+        else:
+            before_map = dict(dict.items(context))
+            via = st[1]
+            try:
+                if via == 'py' and dict.get(context, 'h') is h:
+                    arg = 'b' if 'b' in context else '0'
+                    PyString(f'h({arg})').get_value(context)
+                else:
+                    via = 'ref'
+                    h(marker('ctx', f'arg#{calls}'))
+                out = 'ok'
+            except Exception as e:     # noqa
+                out = err_name(e)
+            calls += 1
+            after_map = dict(dict.items(context))
+            bad = []
+            for k in before_map:
+                if k not in after_map:
+                    bad.append(f'key {k!r} removed')
+                elif after_map[k] is not before_map[k] and k not in given:
+                    bad.append(f'key {k!r} rebound')
+            for k in after_map:
+                if k not in before_map and k not in given:
+                    bad.append(f'key {k!r} (re-)added')
+            if bad:
+                findings.append((
+                    f"call #{calls} of a helper function a py block left in context (its body: save({', '.join(sorted(given))})"
+                    f"), {'from a !py expression' if via == 'py' else 'through a kept reference'}: context keys that were "
+                    f"not passed to that save(...) call changed: {', '.join(bad[:6])}",
+                    dict(sig, effect='added' if any('added' in b for b in bad) else 'rebound-or-removed'),
+                    {'before': list(before_map), 'after': list(after_map), 'given': sorted(given), 'outcome': out}))
+                break
+    return {'ok': True, 'calls': calls}, findings
 
 
 def expect_map(expect, before_map, context):
@@ -1947,12 +2136,91 @@ class Gen:
             ops.append({'eval': Drain(N('f'))})
         return render({'ctx': ctx, 'heap': heap, 'ops': ops, 'kind': 'deferred'})
 
+    def savelater(self):
+        """A py block whose `save` function is called again AFTER the block has ended (`savecall` ops: the
+        block kept the function, or a helper whose body calls it), with context deletions / rebinds /
+        contextclearall / evaluations / further blocks in between: every call may write only what it is given."""
+        r = self.rng
+        ctx, heap = self.context(with_py=True)
+        keys = [k for k, _ in ctx]
+        ops = []
+        blocks = []        # per py block: the names its namespace binds for sure (context keys then + saved locals)
+        serial = [0]
+
+        def new_block():
+            b = self.block(keys, [])
+            # a def keeps the block's namespace object alive in the model (as the closure of `save` does for real)
+            b.insert(r.randrange(len(b) + 1), Def('hq', [], [], N(r.choice([k for k in keys if k != '__builtins__'] or ['a']))))
+            loc = r.choice(['x', 'w', 'r0'])
+            b.append(As(loc, N(r.choice([k for k in keys if k not in ('__builtins__', 'py')] or ['len']))))
+            first = [loc] + [k for k in r.sample(keys, min(len(keys), r.choice([0, 1, 2]))) if k not in ('py', '__builtins__', 'save')]
+            b.append(Save(first + (['hq'] if r.random() < 0.5 else []), [('k0', N(loc))] if r.random() < 0.4 else []))
+            ops.append({'exec': b})
+            blocks.append([loc, 'hq'] + [k for k in keys if k not in ('save', '__builtins__')])
+            for k in sorted(saved_names(b)):
+                if k not in keys:
+                    keys.append(k)
+
+        def val():
+            serial[0] += 1
+            x = r.random()
+            if x < 0.7:
+                return tok('ctx', f'kw#{serial[0]}')
+            if x < 0.8 and heap:
+                return ref(r.randrange(len(heap)))
+            return r.choice([0, 1, 5, None])
+
+        def savecall():
+            blk = r.randrange(len(blocks))
+            bound = blocks[blk]
+            names = []
+            for _ in range(r.choice([0, 0, 1, 1, 2])):
+                names.append(r.choice(bound) if r.random() < 0.92 else r.choice(['nope', 'zz']))
+            kws = [[k, val()] for k in r.sample(['count', 'k0', 'a', 'x', 'L', 'len'], r.choice([0, 1, 1, 2]))]
+            ops.append({'savecall': [blk, names, kws]})
+            for k in names + [k for k, _ in kws]:
+                if k not in keys and k not in ('nope', 'zz'):
+                    keys.append(k)
+
+        new_block()
+        for _ in range(r.choice([2, 3, 4, 5, 6])):
+            x = r.random()
+            saved = [k for k in keys if k not in ('py',)]
+            if x < 0.24 and saved:
+                ks = list(dict.fromkeys(r.choice(saved) for _ in range(r.choice([1, 1, 2, 3]))))
+                ops.append({'ctxdel': ks})
+                for k in ks:
+                    if k in keys:
+                        keys.remove(k)
+            elif x < 0.42 and saved:
+                ks = [k for k in dict.fromkeys(r.choice(saved) for _ in range(r.choice([1, 2]))) if k != 'pyImport']
+                if ks:
+                    ops.append({'ctxset': [[k, val()] for k in ks]})
+            elif x < 0.48:
+                ops.append({'clearall': True})
+                keys = []
+            elif x < 0.56:
+                ops.append({'eval': self.probe([k for k in keys if k != '__builtins__'] or ['a'])})
+            elif x < 0.62:
+                ops.append({'ctxset': [['py', tok('special', 'py')]]})
+                if 'py' not in keys:
+                    keys.append('py')
+                new_block()
+            elif x < 0.65:
+                ops.append({'rehydrate': 'copy'})
+            else:
+                savecall()
+        savecall()
+        return render({'ctx': ctx, 'heap': heap, 'ops': ops, 'kind': 'savelater'})
+
     def session(self):
         r = self.rng
         x = r.random()
         if x < 0.12:
             return self.deferred()
-        if x < 0.48:
+        if x < 0.20:
+            return self.savelater()
+        if x < 0.50:
             return self.mixed()
         kind = 'exec' if x < 0.72 else 'eval'
         ctx, heap = self.context(with_py=(kind == 'exec'))
@@ -1995,7 +2263,7 @@ def payload(case, old=False, fuel=400):
 
 def strip(op):
     return {k: v for k, v in op.items() if k in ('eval', 'exec', 'pyimport', 'ctxset', 'ctxdel', 'clearall',
-                                                 'rehydrate', 'evalset', 'foreach')}
+                                                 'rehydrate', 'evalset', 'foreach', 'savecall')}
 
 
 def collect_names(case):
